@@ -230,7 +230,29 @@ def _last_item(rng, bound, free):
     if r < 0.93: return ['or', ['and', test(), ['or', cutb('in'), mark('in2')]], mark('right')]   # nested one level
     return ite(test(), ite(test(), cutb('then2'), mark('else2')), mark('else'))
 
-def gen_limit_body_program(rng, target=None):
+def _last_item_nocut(rng, bound, free):
+    """a control construct WITHOUT a clause-level cut (C06): disjunction, if-then-else, if-then, negation, a condition with a cut of
+    its own (two blocks), nested one level"""
+    def test():
+        if bound and rng.random() < 0.8:
+            v = V(rng.choice(bound))
+            return eq(v, progs_shapes._num(rng.randrange(1, 4))) if rng.random() < 0.7 else neq(v, progs_shapes._num(rng.randrange(1, 4)))
+        return rng.choice([call('s0'), call('z0'), call('n', V('_')), ['fail']])
+    def mark(tag):
+        if free and rng.random() < 0.7:
+            return eq(V(free[0]), A(tag))
+        return rng.choice([['true'], call('s0'), call('n', V('_'))])
+    r = rng.random()
+    if r < 0.2: return ['or', ['and', test(), mark('left')], mark('right')]
+    if r < 0.4: return ite(test(), mark('then'), mark('else'))
+    if r < 0.5: return ['if', test(), mark('then')]
+    if r < 0.62: return ['not', test()]
+    if r < 0.72: return ite(['and', call('n', V('_')), ['and', ['cut'], test()]], mark('then'), mark('else'))      # cut local to the condition
+    if r < 0.8: return ['and', ['not', ['and', ['cut'], test()]], mark('after')]
+    if r < 0.9: return ite(test(), ite(test(), mark('then2'), mark('else2')), ['or', mark('else'), mark('else3')])
+    return ['or', ite(test(), mark('then'), mark('else')), ['not', test()]]
+
+def gen_limit_body_program(rng, target=None, cuts=True):
     """p(Hv..) :- <spine of calls>, CONTROL [, tail].   The spine is padded with deterministic calls until the static estimate of
     the nesting of the emitted function (wrapper loop + head unification loops + one loop per call + one block per if-then-else /
     negation, progs_shapes.count_loops) is exactly `target` in 18 .. 22; CPython's limit is 20.  One to three of the spine goals
@@ -248,10 +270,11 @@ def gen_limit_body_program(rng, target=None):
     tail = []
     q = rng.random()
     if q < 0.30: tail = [rng.choice([call('s0'), ['true'], call('n', V('_'))])]
-    elif q < 0.40: tail = [['cut']] if rng.random() < 0.5 else [call('s0'), call('s0')]
-    ctl = [_last_item(rng, list(nd), list(free))]
+    elif q < 0.40: tail = [['cut']] if (cuts and rng.random() < 0.5) else [call('s0'), call('s0')]
+    item = _last_item if cuts else _last_item_nocut
+    ctl = [item(rng, list(nd), list(free))]
     if rng.random() < 0.25:
-        ctl.append(rng.choice([['not', call('z0')], _last_item(rng, list(nd), []), ite(call('s0'), ['true'], ['fail'])]))
+        ctl.append(rng.choice([['not', call('z0')], item(rng, list(nd), []), ite(call('s0'), ['true'], ['fail'])]))
     gens = [call('n', V(v)) for v in nd]
     # the spine: deterministic calls with the generators at random positions (mostly late: close to the control item)
     spine = []
